@@ -399,3 +399,40 @@ def decorate_data(draw, spec, sigma_choices, p_sigma=0.4, p_both=0.25, dense=Fal
         base.update(start + k for k in range(-3, 8))
     data["years"] = sorted(base | used)
     return feats
+
+
+def data_features(spec):
+    """which of {assumption, assumption+years, sparse-series, series, uncertainty} occur in the databook / program book part of a spec"""
+    feats = set()
+
+    def look(e):
+        if not isinstance(e, dict):
+            feats.add("assumption")
+            return
+        if e.get("s"):
+            feats.add("uncertainty")
+        if e.get("t"):
+            feats.add("sparse-series" if len(e["t"]) < 3 else "series")
+            if e.get("a") is not None:
+                feats.add("assumption+years")
+        elif e.get("a") is not None:
+            feats.add("assumption")
+
+    data = spec["data"]
+    for bypop in data["q"].values():
+        for e in bypop.values():
+            look(e)
+    for tr in data.get("tr", []):
+        for e in tr["e"].values():
+            look(e)
+    for entries in (data.get("iw") or {}).values():
+        for e in entries.values():
+            look(e)
+    for p in (spec.get("progs") or {}).get("progs", []):
+        for k in ("spend", "cost", "cap", "sat", "cov"):
+            if p.get(k):
+                look(p[k])
+    for c in (spec.get("progs") or {}).get("covouts", []):
+        if c.get("sigma"):
+            feats.add("uncertainty")
+    return feats
